@@ -149,6 +149,7 @@ int main(int argc, char **argv){
     bool inter = false; for (auto &p : now.needed) if (std::find(now.loaded.begin(), now.loaded.end(), p) != now.loaded.end()) inter = true;
     fpsym_check(!dup, (tag + "loaded and needed point sets are duplicate-free").c_str());
     fpsym_check(!inter, (tag + "loaded and needed point sets are disjoint").c_str());
+    if (zeroed) for (size_t i=0;i<now.probe.size();i++) fpsym_eq(now.probe[i], 0.0, 1.0, (tag + "after mergeRefinement the surrogate is zero as well (its coefficients belong to the zero values)").c_str());
     // every value is attached to the coordinates it was supplied for
     for (size_t i=0;i<now.loaded.size();i++){
       if (zeroed){ for (int k=0;k<outs;k++) fpsym_eq(now.vals[i * outs + k], 0.0, 1.0, (tag + "after mergeRefinement all values are zero").c_str()); continue; }
